@@ -3,7 +3,7 @@
   (lean/GojaModel/Generated/C17_Index.lean, rewritten on every run) equal the ones the model and its
   theorems use.  A change of the Go logic changes the generated defs and breaks one of these equalities.
 -/
-import GojaModel.C17.Overlap
+import GojaModel.C17.Bytes
 import GojaModel.Generated.C17_Index
 
 namespace GojaModel.C17.Tie
@@ -119,5 +119,40 @@ theorem atIndex_tie :
     (∀ i l : Int, Generated.C17.atOutOfRange i l = (decide (i ≥ l) || decide (i < 0))) := by
   refine ⟨?_, fun _ _ => rfl⟩
   funext i l; simp [Generated.C17.atIdx, atIndex]
+
+/-- slice between views of the same element type: goja uses `copy` exactly when `sliceMech` does, and otherwise the forward
+byte loop (`sliceMech_eq_spec` shows both equal ECMA-262's forward copy) -/
+theorem sliceMech_tie (srcLo dstLo n : Nat) :
+    ((Generated.C17.sliceMemmoveOk dstLo srcLo n = true) ↔ (dstLo ≤ srcLo ∨ dstLo ≥ srcLo + n)) ∧
+    Generated.C17.sliceByteLoop = ["i := 0; i < byteCount; i++", "dstBuf[i] = srcBuf[i]"] := by
+  refine ⟨?_, by decide⟩
+  simp only [Generated.C17.sliceMemmoveOk, Bool.or_eq_true, decide_eq_true_eq]
+  omega
+
+/-! ### order of callback points (`cb:`), detach / index checks (`check:`) and element touches (`touch:`)
+
+Regenerated per method from the Go AST (call expressions in evaluation order).  These sequences are what the model's
+operations transcribe: e.g. `fill` = entry check, three coercions (start, end, value), a second check, then the writes —
+mutation M4 of the first round (dropping the second check) changes the sequence.  `putIdx` stands for a call of `_putIdx`
+(convert, validate the index, write), whose own sequence is the second entry. -/
+
+theorem guardEvents_tie :
+    Generated.C17.events_getIdx = ["check:ensureNotDetached", "touch:get"] ∧
+    Generated.C17.events_putIdx = ["cb:toBigInt", "cb:ToNumber", "check:isValidIntegerIndex", "touch:set"] ∧
+    Generated.C17.events_typedArrayProto_fill = ["check:ensureNotDetached", "cb:ToInteger", "cb:ToInteger", "cb:toRaw", "check:ensureNotDetached", "touch:setRaw"] ∧
+    Generated.C17.events_typedArrayProto_copyWithin = ["check:ensureNotDetached", "cb:ToInteger", "cb:ToInteger", "cb:ToInteger", "check:ensureNotDetached", "touch:copy"] ∧
+    Generated.C17.events_typedArrayProto_set = ["cb:ToObject", "cb:ToInteger", "check:ensureNotDetached", "check:ensureNotDetached", "touch:copy", "touch:get", "touch:set", "touch:get", "touch:set", "touch:get", "touch:set", "touch:get", "touch:set", "touch:get", "touch:set", "touch:get", "touch:set", "cb:getStr", "cb:getIdx", "putIdx"] ∧
+    Generated.C17.events_typedArrayProto_slice = ["check:ensureNotDetached", "cb:ToInteger", "cb:ToInteger", "cb:typedArraySpeciesCreate", "check:ensureNotDetached", "touch:copy", "check:ensureNotDetached", "touch:get", "touch:set"] ∧
+    Generated.C17.events_typedArrayProto_with = ["cb:ToObject", "check:ensureNotDetached", "cb:ToInteger", "cb:toBigInt", "cb:ToNumber", "check:isValidIntegerIndex", "cb:typedArrayCreate", "touch:copy", "touch:set"] ∧
+    Generated.C17.events_typedArrayProto_at = ["check:ensureNotDetached", "cb:ToInteger", "check:ensureNotDetached", "touch:get"] ∧
+    Generated.C17.events_typedArrayProto_indexOf = ["check:ensureNotDetached", "cb:ToInteger", "check:ensureNotDetached", "cb:toRaw", "touch:getRaw"] ∧
+    Generated.C17.events_typedArrayProto_lastIndexOf = ["check:ensureNotDetached", "cb:ToInteger", "check:ensureNotDetached", "cb:toRaw", "touch:getRaw"] ∧
+    Generated.C17.events_typedArrayProto_includes = ["check:ensureNotDetached", "cb:ToInteger", "check:ensureNotDetached", "cb:toRaw", "touch:getRaw"] ∧
+    Generated.C17.events_typedArrayProto_map = ["check:ensureNotDetached", "cb:typedArraySpeciesCreate", "check:isValidIntegerIndex", "touch:get", "cb:callbackFn", "putIdx"] ∧
+    Generated.C17.events_typedArray_of = ["cb:typedArrayCreate", "putIdx"] ∧
+    Generated.C17.events_typedArrayProto_reverse = ["check:ensureNotDetached", "touch:swap"] ∧
+    Generated.C17.events_getIdxAndByteOrder = ["check:ensureNotDetached"] ∧
+    Generated.C17.events_Less = ["check:checkDetached", "touch:get", "touch:get", "cb:compare", "cb:ToNumber", "touch:less"] ∧
+    Generated.C17.events_Swap = ["check:checkDetached", "touch:swap"] := by decide
 
 end GojaModel.C17.Tie
